@@ -33,7 +33,7 @@ def main():
         rc, out = sh("git apply %s" % os.path.join(src, "patch.diff"), D)
         if rc != 0:
             # /repo has moved on since the change was written (fix: commits): three-way
-            rc, out = sh("git apply -3 %s" % os.path.join(src, "patch.diff"), D)
+            rc, out = sh("git update-index --refresh >/dev/null; git apply -3 %s && git reset -q" % os.path.join(src, "patch.diff"), D)
         res["patch_applies"] = rc == 0
         if rc != 0:
             print("patch does not apply:", out[:500])
